@@ -1,5 +1,6 @@
+import QuicModel.Drivers.TransportParams
 import QuicModel.Drivers.VarInt
 namespace Quic.Drivers
 def all : List Component :=
-  VarInt.components
+  TransportParams.components ++ VarInt.components
 end Quic.Drivers
